@@ -634,3 +634,4 @@ def terminalvar_delegation(repo):
 # added rules (appended to the explanation the evidence file carries)
 EXPLANATION += (" " + 'Added during the build (DESIGN.md 4.31, second table): descriptor objects are shared across the instances they are read through (terminal, two Struct channels, linked channels, another terminal; every access twice).')
 EXPLANATION += (' Added after wave 8: (R19.1) _start stores nothing: no attribute or subscript under self, no container method on an attribute of self, no memo decorator.')
+EXPLANATION += (' Added after wave 10: (R19.4) a PacketVar keeps nothing but its two accessor closures; float formats in the accessor scenarios; the immediate-store table of C01 is shared.')
